@@ -48,6 +48,9 @@ def run(model, res, tier):
     H.safely(res, 'R4', 'r4', _r4, model, res, c, opaque)
     from . import c11
     H.borrow(res, 'R6', 'aggregates with an error item', lambda tmp: c11._r1(model, tmp))
+    res.rule('R7', 'a division whose divisor turns out to be zero yields the #DIV/0! error value for every kind of divisor (number, logical, '
+             'numeric text, date-time with serial 0) - never an exception, which no trapping function could observe')
+    H.safely(res, 'R7', 'zero divisors', _r7_zero_divisors, model, res, c, g, acts, opaque)
     keys = []
     for kind in ('arith', 'logic', 'concat', 'uminus'):
         m, f = acts[kind]
@@ -59,6 +62,33 @@ def run(model, res, tier):
     region = c.cg.reachable(keys) - set(c.cg.registry_keys)
     purity.check_region(res, c, 'R5', None, region, 'an operator')
     purity.check_memo(res, c, 'R5', region, 'a function on an operator path')
+
+
+def _r7_zero_divisors(model, res, c, g, acts, opaque):
+    from .c06 import _run_arith
+    em, singles = error_singletons(model)
+    DIV = dict((msg, n_) for n_, msg in singles.items()).get('#DIV/0!')
+    m, f = acts['arith']
+    n = 0
+    for kind in ('int', 'float', 'bool', 'str', 'datetime'):
+        try:
+            outs = _run_arith(model, g, acts, opaque, '/', lambda: Sym('int', 'a'), lambda kind=kind: Sym(kind, 'b'), flags={'zero_division_forks': True})
+        except Unmodelled as e:
+            res.ob('R7', f.name, {'divisor': kind}, True, 'undecided: %s' % e)
+            continue
+        zero = [o for o in outs if not o.imprecise and any('== 0' in t and alt is True for (t, alt, s_) in o.notes)]
+        # the zero fork may also be taken by a guard of the code itself (a test of the converted divisor): those traces return the error
+        raised = [o for o in outs if not o.imprecise and o.kind == 'raise' and isinstance(o.value, Exc) and o.value.cls == 'ZeroDivisionError']
+        n += 1
+        bad = [o for o in zero if not (o.kind == 'return' and isinstance(o.value, Err) and o.value.name == DIV)] + \
+              [o for o in raised if o not in zero]
+        res.ob('R7', f.name, {'divisor': kind, 'zero traces': len(zero)}, not bad, H.describe(bad or zero)[:2])
+        if bad:
+            res.violation('R7', 'operator:division:zero-%s' % kind, m.where(f),
+                          'dividing by a %s divisor that is (converted to) zero does not yield the #DIV/0! error value: %s - an exception '
+                          'escapes IFERROR / ISERROR / ERROR.TYPE and is reported as #ERROR!' % (kind, '; '.join(H.describe(bad)[:2])),
+                          case={'divisor': kind}, func=f.name)
+    res.soft_floor('kinds of zero divisor run', n, 4)
 
 
 def _is_operand(v, name):
